@@ -3,6 +3,7 @@ package main
 import (
 	"fmt"
 	"go/ast"
+	"go/token"
 	"go/types"
 )
 
@@ -630,4 +631,104 @@ func ruleHTTPExchangeBounded(c *Ctx) {
 	if n == 0 {
 		c.und("clients", 0, "no http.Client is built in internal/endpoint")
 	}
+}
+
+// R10.queue-key-order
+func init() {
+	register(&Rule{ID: "R10.queue-key-order", Props: []string{"C10", "C05"}, Floor: 1,
+		Text: "the notification queue is a key-value store drained in the string order of its keys, and the keys are a prefix plus the queue index: string order is numeric order only if the index is encoded with a fixed width. The function whose result is appended to the queue-key prefix (found by role: the argument of the concatenation with hookLogPrefix in the function that stores the notifications) returns, on every return, a string of constant length — the tail x[len(x)-K:] of a string (constant K), or a fmt.Sprintf whose format is one zero-padded fixed-width integer verb. Unpadded, index 10 sorts before index 9 and 'inside' is delivered before 'enter'",
+		Run:  ruleQueueKeyOrder})
+}
+
+func ruleQueueKeyOrder(c *Ctx) {
+	// the encoders: functions whose result is concatenated with the constant hookLogPrefix
+	encoders := map[*types.Func]token.Pos{}
+	for _, fn := range c.AllFuncs("internal/server") {
+		if fn.Decl.Body == nil {
+			continue
+		}
+		info := fn.Info()
+		ast.Inspect(fn.Decl.Body, func(x ast.Node) bool {
+			be, ok := x.(*ast.BinaryExpr)
+			if !ok || be.Op != token.ADD {
+				return true
+			}
+			id, ok := ast.Unparen(be.X).(*ast.Ident)
+			if !ok {
+				return true
+			}
+			if k, ok := info.ObjectOf(id).(*types.Const); !ok || k.Name() != "hookLogPrefix" {
+				return true
+			}
+			if call, ok := ast.Unparen(be.Y).(*ast.CallExpr); ok {
+				if f := callee(info, call); f != nil && c.FuncOf(f) != nil {
+					encoders[f] = call.Pos()
+				}
+			}
+			return true
+		})
+	}
+	if len(encoders) == 0 {
+		c.und("encoder", 0, "no function result is concatenated with hookLogPrefix: the queue key encoder was not found")
+		return
+	}
+	for f := range encoders {
+		fi := c.FuncOf(f)
+		info := fi.Info()
+		fg := newFlowGraph(info, fi.Decl.Body)
+		bad := ""
+		var at token.Pos = fi.Decl.Pos()
+		nret := 0
+		for _, r := range fg.Returns() {
+			rs := r.Node.(*ast.ReturnStmt)
+			nret++
+			if len(rs.Results) != 1 {
+				bad, at = "a bare return", rs.Pos()
+				break
+			}
+			e := ast.Unparen(resolveLocal(info, fi.Decl.Body, rs.Results[0]))
+			fixed := false
+			switch x := e.(type) {
+			case *ast.SliceExpr:
+				// s[len(s)-K:]
+				if x.High == nil && x.Low != nil {
+					if lb, ok := ast.Unparen(x.Low).(*ast.BinaryExpr); ok && lb.Op == token.SUB {
+						if lc, ok := ast.Unparen(lb.X).(*ast.CallExpr); ok && len(lc.Args) == 1 {
+							if lid, ok := ast.Unparen(lc.Fun).(*ast.Ident); ok && lid.Name == "len" && sameExpr(info, lc.Args[0], x.X) {
+								if tv, ok := info.Types[lb.Y]; ok && tv.Value != nil {
+									fixed = true
+								}
+							}
+						}
+					}
+				}
+			case *ast.CallExpr:
+				if g := callee(info, x); g != nil && isFunc(g, "fmt", "Sprintf") && len(x.Args) == 2 {
+					if fs, ok := constString(info, x.Args[0]); ok {
+						if len(fs) >= 4 && fs[0] == '%' && fs[1] == '0' && fs[len(fs)-1] == 'd' && isDigits(fs[2:len(fs)-1]) {
+							fixed = true
+						}
+					}
+				}
+			}
+			if !fixed {
+				bad, at = exprStr(e), rs.Pos()
+				break
+			}
+		}
+		c.check(bad == "" && nret > 0, funcName(f), at, "every return is a string of constant length (a fixed-width encoding of the index)",
+			"the queue index is encoded as "+bad+", which is not of constant length: the store orders its keys as strings, so index 10 sorts before index 9 and notifications are delivered out of order ('inside' before 'enter') whenever the indexes of a backlog span a power of ten")
+	}
+}
+
+func isDigits(s string) bool {
+	if s == "" {
+		return false
+	}
+	for _, r := range s {
+		if r < '0' || r > '9' {
+			return false
+		}
+	}
+	return true
 }
